@@ -141,6 +141,16 @@ func parseObjects(
 			return
 		}
 
+		if _, err = parseConditionMapAnnotation(&obj); err != nil {
+			err = packagetypes.ViolationError{
+				Reason:  packagetypes.ViolationReasonInvalidConditionMap,
+				Details: err.Error(),
+				Path:    path,
+				Index:   ptr.To(idx),
+			}
+			return
+		}
+
 		if len(obj.Object) != 0 {
 			obj.SetLabels(labels.Merge(obj.GetLabels(), commonLabels(manifest, tmplCtx.Package.Name)))
 			objects = append(objects, obj)
